@@ -175,7 +175,7 @@ var denyPrefixes = []string{
 	"oras.land/oras-go/v2/content/oci", "oras.land/oras-go/v2/registry/remote", "oras.land/oras-go/v2/internal",
 	"github.com/notaryproject/notation-core-go/signature/jws", "github.com/notaryproject/notation-core-go/signature/cose",
 	"github.com/notaryproject/notation-core-go/revocation", "github.com/notaryproject/tspclient-go/internal",
-	"encoding/base64", "encoding/binary", "compress", "bufio", "io/ioutil", "testing", "vendor",
+	"encoding/base64", "encoding/binary", "compress", "testing", "vendor",
 	"github.com/go-asn1-ber", "github.com/Azure", "github.com/google/uuid",
 }
 
